@@ -70,6 +70,7 @@ def run(ctx):
         except Exception:
             continue
         ep = orb.tle.epoch.astype("datetime64[us]")
+        prev_obs = None
         for j in range(ctx.n(10, 40)):
             t = ep + np.timedelta64(int(ctx.rng.uniform(-10, 10) * 86400e6), "us")
             try:
@@ -79,8 +80,22 @@ def run(ctx):
             except Exception:
                 continue
             g = iau82(d_of(t))
-            kind = ctx.rng.choice(["random", "random", "subpoint", "antipode", "pole", "dateline", "near"])
-            if kind == "subpoint":
+            kind = ctx.rng.choice(["random", "random", "subpoint", "antipode", "pole", "dateline", "near", "revisit", "revisit"])
+            if kind == "revisit" and prev_obs is None:
+                kind = "random"
+            if kind == "revisit":
+                # the same object is asked about the previous observer again with ONE coordinate changed (a station and a
+                # mast on it, two stations on one meridian): the answer must follow all three coordinates
+                lon, lat, alt = prev_obs
+                which = ctx.rng.choice(["alt", "alt", "lon", "lat"])
+                if which == "alt":
+                    alt = alt + ctx.rng.choice([1.65, 3.0, 11.0]) if alt < 2 else 0.0
+                elif which == "lon":
+                    lon = (lon + ctx.rng.uniform(1, 40) + 180.0) % 360.0 - 180.0
+                else:
+                    lat = max(-90.0, min(90.0, lat + ctx.rng.uniform(-20, 20)))
+                kind = "revisit-" + which
+            elif kind == "subpoint":
                 lon, lat, alt = slon, slat, ctx.rng.choice([0.0, 0.5])
             elif kind == "antipode":
                 lon, lat, alt = (slon + 360.0) % 360.0 - 180.0, -slat, 0.0
@@ -93,6 +108,9 @@ def run(ctx):
             else:
                 lon, lat, alt = ctx.rng.uniform(-180, 180), ctx.rng.uniform(-90, 90), ctx.rng.uniform(0, 4)
             base = {"line1": l1, "line2": l2, "time": str(t), "observer": [lon, lat, alt], "kind": kind}
+            if kind.startswith("revisit"):
+                base["previous_query_on_the_same_object"] = {"observer": list(prev_obs)}
+            prev_obs = (lon, lat, alt)
             ctx.case(("look", ti, j), base if (ti == 0 and j < 2) else None)
             try:
                 with common.time_limit(30):
